@@ -54,6 +54,17 @@ Theorem C19_schedules_value : forall sigma b n,
   fst (sched sigma b p) = b /\
   forall i t' r, (i < n)%nat -> nth_error (snd (sched sigma b p)) i = Some t' -> result t' = Some r -> r = buf_now b.
 Proof. exact schedules_value. Qed.
+(* a parsed PKCS#7 object: any number of verifications of any certificates, in any
+   order and interleaving; the verdict for one certificate never depends on which
+   others were verified on the same object before *)
+Theorem C19_repeat_pkcs7 : forall ops p, Forall (p7_op rsa_ok) ops ->
+  run_seq ops p = (map (fun t => fst (exec t p)) ops, p).
+Proof. exact (repeat_p7 rsa_ok). Qed.
+Theorem C19_schedules_pkcs7 : forall sigma p pool, Forall (p7_op rsa_ok) pool ->
+  fst (sched sigma p pool) = p /\
+  forall i t t' r, nth_error pool i = Some t -> nth_error (snd (sched sigma p pool)) i = Some t' ->
+    result t' = Some r -> r = fst (exec t p).
+Proof. exact (schedules_p7 rsa_ok). Qed.
 (* every call finishes once it has been given enough turns *)
 Theorem C19_progress : forall (t : tprog istate ires) s, exists n, forall m, (n <= m)%nat ->
   solo m s t = (snd (exec t s), TDone (fst (exec t s))).
@@ -93,6 +104,8 @@ Print Assumptions C19_repeat_value.
 Print Assumptions C19_schedules_image.
 Print Assumptions C19_schedules_database.
 Print Assumptions C19_schedules_value.
+Print Assumptions C19_repeat_pkcs7.
+Print Assumptions C19_schedules_pkcs7.
 Print Assumptions C19_progress.
 Print Assumptions C19_results.
 Print Assumptions C19_fresh_view.
